@@ -164,3 +164,24 @@ func VerifC13ForgetAnswers(c *Cache, q dns.Question) {
 
 // VerifC13FailureOf exposes the failure cache of a Cache built by New.
 func VerifC13FailureOf(c *Cache) *FailureCache { return c.failure }
+
+// VerifC13ForgetAnswersScoped is VerifC13ForgetAnswers plus every scoped key
+// a client with source prefix scope would probe (scopedLookup walks the bits
+// downwards).
+func VerifC13ForgetAnswersScoped(c *Cache, q dns.Question, scope netip.Prefix) {
+	VerifC13ForgetAnswers(c, q)
+	if !scope.IsValid() {
+		return
+	}
+	for bits := scope.Addr().BitLen(); bits >= 1; bits-- {
+		p, err := scope.Addr().Prefix(bits)
+		if err != nil {
+			continue
+		}
+		for _, cd := range []bool{false, true} {
+			key := CacheKey{Question: q, CD: cd, Scope: p}.Hash()
+			c.positive.Remove(key)
+			c.negative.Remove(key)
+		}
+	}
+}
